@@ -109,9 +109,11 @@ func (s *segment) GetDataFamilies(timeRange timeutil.TimeRange) []DataFamily {
 	var result []DataFamily
 	calc := s.interval.Calculator()
 
+	// truncate the query range to family start times, each computed in the timestamp's own
+	// segment (the query range may start/end in another segment than this one)
 	familyQueryTimeRange := timeutil.TimeRange{
-		Start: calc.CalcFamilyStartTime(s.baseTime, calc.CalcFamily(timeRange.Start, s.baseTime)),
-		End:   calc.CalcFamilyStartTime(s.baseTime, calc.CalcFamily(timeRange.End, s.baseTime)),
+		Start: calc.CalcFamilyTime(timeRange.Start),
+		End:   calc.CalcFamilyTime(timeRange.End),
 	}
 	familyNames := s.kvStore.ListFamilyNames()
 
